@@ -36,7 +36,8 @@ const std::string basic_binary_lambda_f<T, S, N>::SERIALIZE_ID(
 template<class T, bool S, bool N, template<class, bool, bool> class L,
          team_composition C>
 const std::string team_class_lambda_f<T, S, N, L, C>::SERIALIZE_ID(
-  "TEAM_" + L<T, S, N>::SERIALIZE_ID);
+  (C == team_composition::mv ? "TEAM_MV_" : "TEAM_")
+  + L<T, S, N>::SERIALIZE_ID);
 
 ///
 /// \param[in] prg the program (individual/team) to be lambdified
@@ -810,7 +811,10 @@ template<class T, bool S, bool N, template<class, bool, bool> class L,
 std::string team_class_lambda_f<T, S, N, L, C>::serialize_id() const
 {
   Expects(team_.size());
-  return "TEAM_" + L<T, S, N>::SERIALIZE_ID;
+  // The composition method is part of the model: a majority-vote team must
+  // not be reloaded as a winner-takes-all team.
+  return (C == team_composition::mv ? "TEAM_MV_" : "TEAM_")
+         + L<T, S, N>::SERIALIZE_ID;
 }
 
 ///
@@ -854,6 +858,33 @@ bool insert(const std::string &id)
   return detail::factory_.insert({id, detail::build<U>}).second;
 }
 
+namespace detail
+{
+// Majority-vote teams have their own id (the composition method isn't
+// recoverable from the members).
+template<class T> void insert_mv_teams(std::false_type) {}
+
+template<class T> void insert_mv_teams(std::true_type)
+{
+  using U = typename T::value_type;
+  constexpr auto mv(team_composition::mv);
+
+  using dyn_mv = team_class_lambda_f<U, true, true, basic_dyn_slot_lambda_f,
+                                     mv>;
+  using gaussian_mv = team_class_lambda_f<U, true, true,
+                                          basic_gaussian_lambda_f, mv>;
+  using binary_mv = team_class_lambda_f<U, true, true, basic_binary_lambda_f,
+                                        mv>;
+
+  factory_.insert({"TEAM_MV_" + dyn_slot_lambda_f<U>::SERIALIZE_ID,
+                   build<dyn_mv>});
+  factory_.insert({"TEAM_MV_" + gaussian_lambda_f<U>::SERIALIZE_ID,
+                   build<gaussian_mv>});
+  factory_.insert({"TEAM_MV_" + binary_lambda_f<U>::SERIALIZE_ID,
+                   build<binary_mv>});
+}
+}  // namespace detail
+
 template<class T>
 std::unique_ptr<basic_src_lambda_f> load(std::istream &in,
                                          const symbol_set &ss)
@@ -865,6 +896,7 @@ std::unique_ptr<basic_src_lambda_f> load(std::istream &in,
     insert<dyn_slot_lambda_f<T>>(dyn_slot_lambda_f<T>::SERIALIZE_ID);
     insert<gaussian_lambda_f<T>>(gaussian_lambda_f<T>::SERIALIZE_ID);
     insert<binary_lambda_f<T>>(binary_lambda_f<T>::SERIALIZE_ID);
+    detail::insert_mv_teams<T>(is_team<T>());
   }
 
   std::string id;
